@@ -117,3 +117,17 @@ package config
 //@     invariant @C03 forall k in [0, idx) :: rdnOk(assertions[k]) && len(out[len(out) - 1 - k]) == 1 && oidv(out[len(out) - 1 - k][0].Type) == rdnType(assertions[k])
 //@     invariant @C03 forall k in [0, idx) :: !isHexAttr(rdnVal(assertions[k])) ==> typeis(out[len(out) - 1 - k][0].Value, "string") && strOf(out[len(out) - 1 - k][0].Value) == rdnVal(assertions[k])
 //@     invariant @C03,C09 forall k in [0, idx) :: len(out[len(out) - 1 - k]) >= 1 && allocated(out[len(out) - 1 - k])
+
+// ParseConfig reads the version key and hands the text to that version's parser: a certificate or a profile on
+// success (assumed: yaml and the version dispatch are outside the subset).
+//@ func ParseConfig returns (res, err)
+//@   props C18
+//@   unverified yaml.Unmarshal of the version proxy and the Configurator interface dispatch are outside the subset
+//@   abstracts err == nil ==> typeis(res, "*gopki/generator/config.CertificateContent") || typeis(res, "*gopki/generator/config.CertificateProfile")
+//@   abstracts err == nil && typeis(res, "*gopki/generator/config.CertificateContent") ==> unboxRef(res) != 0
+//@   abstracts err == nil && typeis(res, "*gopki/generator/config.CertificateProfile") ==> unboxRef(res) != 0
+
+//@ func IsErrorUnknownFile returns (res)
+//@   props C18
+//@   ensures @C18 res == typeis(err, "gopki/generator/config.ErrorUnknownFile")
+
